@@ -11,7 +11,7 @@ import (
 	"verifharness/internal/val"
 )
 
-var c05Floor = []string{"keys.1", "keys.2", "keys.3", "dir.asc", "dir.desc", "dir.mixed", "key.null", "key.computed-null", "key.alias", "key.alias.nonword", "key.alias.shadow", "key.str", "key.num", "ties", "limit.huge",
+var c05Floor = []string{"keys.1", "keys.2", "keys.3", "dir.asc", "dir.desc", "dir.mixed", "key.null", "key.computed-null", "key.alias", "key.alias.nonword", "key.alias.shadow", "key.table-qualified", "key.str", "key.num", "ties", "limit.huge",
 	"limit.bare", "limit.beyond-int64", "limit.offset", "limit.comma", "limit.zero", "offset.beyond", "window.straddle", "window.inside", "window.noorder", "where",
 	"shape.distinct", "shape.agg-all", "shape.group", "shape.union", "shape.bigint", "shape.union-order", "shape.qualified", "shape.shrunk-offset"}
 
@@ -155,6 +155,7 @@ func c05Order(c *fw.Case) {
 		feats = append(feats, "where")
 	}
 	orderSQL := ""
+	tableQualified := force == "" && c.Chance(0.1)
 	if !noOrder {
 		parts := make([]string, len(keys))
 		for i, k := range keys {
@@ -166,6 +167,11 @@ func c05Order(c *fw.Case) {
 				d = ""
 			}
 			parts[i] = c05Quote(k.out) + d
+			if aliasOf[k.out] == k.out && k.out != "kc" && (force == "key.table-qualified" || tableQualified) {
+				// an output column named with the table's own name
+				parts[i] = "t1." + k.out + d
+				feats = append(feats, "key.table-qualified")
+			}
 		}
 		orderSQL = " ORDER BY " + strings.Join(parts, ", ")
 	}
